@@ -42,6 +42,8 @@ def build_rtf(seed: int, feature: str | None = None, twin: bool = False):
         n_pages = max(3, n_pages)
     fpage = rng.randrange(n_pages)
     n_img = 0
+    brk_rng = random.Random(f"rtf-breaks:{seed}")
+    fn_rng = random.Random(f"rtf-footnotes:{seed}")
     pos = 0   # source page position (a blank page occupies a position)
     for p in range(n_pages):
         def w(cls, lo=1, hi=3):
@@ -64,6 +66,16 @@ def build_rtf(seed: int, feature: str | None = None, twin: bool = False):
                     parts.append(w("b", 1, 1)[0] + "\\line " + w("b", 1, 1)[0])
                 else:
                     parts.append(w("b", 1, 1)[0] + " {\\*\\annotation " + exp.out(tk.new("m")) + "} " + w("b", 1, 1)[0])
+            if fn_rng.random() < 0.12:
+                # a footnote: flat, or holding a hyperlink field / a bookmark (groups nested two and three levels deep); whether
+                # footnote text belongs to the full text is not claimed
+                note = [exp.ignore(tk.new("n")) + " some words of a footnote, long enough to matter"]
+                kind = fn_rng.choice(["flat", "field", "bookmark", "field"])
+                if kind == "field":
+                    note.append('{\\field{\\*\\fldinst{HYPERLINK "https://example.org/n"}}{\\fldrslt{' + exp.ignore(tk.new("n")) + "}}}")
+                elif kind == "bookmark":
+                    note.append("{\\*\\bkmkstart fn}{\\b{\\i " + exp.ignore(tk.new("n")) + "}}{\\*\\bkmkend fn}")
+                parts.append("{\\super 1}{\\footnote \\pard\\plain {\\super 1} " + " ".join(note) + "}")
             return "\\pard " + " ".join(parts) + "\\par\n"
 
         def table(rows, cols, one_line=False):
@@ -104,7 +116,10 @@ def build_rtf(seed: int, feature: str | None = None, twin: bool = False):
             return "{\\pict\\%sblip\\picw%d\\pich%d\\picwgoal%d\\pichgoal%d %s}\n" % (codec, wpx, hpx, wpx * 15, hpx * 15, hexs)
 
         if feature == "image-only-page" and p == fpage:
-            out.append("\\pard " + picture() + "\\par\n")
+            if twin or brk_rng.random() < 0.5:
+                out.append("\\pard " + picture() + "\\par\n")
+            else:
+                out.append(picture().rstrip("\n"))       # the picture group right between two breaks, no paragraph around it
             if twin:
                 out.append(para())
         else:
@@ -155,10 +170,14 @@ def build_rtf(seed: int, feature: str | None = None, twin: bool = False):
             elif feature == "pict-hex-wrapped":
                 out.append("\\pard " + picture(wrapped=not twin) + "\\par\n")
         if p != n_pages - 1:
-            out.append("\\page\n")
+            # a page break followed by a line end, a delimiter blank, or directly by the next control word
+            brk = brk_rng.choice(["\\page\n", "\\page\n", "\\page ", "\\page"])
+            out.append(brk)
             pos += 1
             if risky == "blank-page" and p == max(0, fpage - 1):
-                out.append("\\page\n")
+                # an empty page: two breaks with nothing, a blank, a line end or an empty paragraph between them
+                out[-1] = brk_rng.choice(["\\page", "\\page ", "\\page\n", "\\page\\pard\\par\n"])
+                out.append(brk)
                 pos += 1
     out.append("}")
     exp.n_units = pos + 1
